@@ -139,48 +139,46 @@ Print Assumptions C02_accepted_cases.
 Print Assumptions C02_responder_sends.
 
 (* ---------- non-vacuity ---------- *)
-Module Examples.
-  Definition c0 := mk_config 10 1000 6.
-  Definition blocks0 : list (N * list N) := [(1006,[]);(1005,[]);(1004,[]);(1003,[]);(1002,[]);(1001,[])].
-  Definition dummy := mk_tower c0 [] 0 [] [] [] 0 (mk_txindex [] [] [] 0 0) (mk_txindex [] [] [] 0 0) 0 [] [] [].
-  Definition t0 := match init c0 200 blocks0 with Some t => t | None => dummy end.
-  Definition good := mk_blob 500 (Some 900) 100.
-  Definition rpcs (t : tower) := map (fun e => (r_kind e, r_tx e)) (rpc_log t).
-  Definition log_after (h : list (op * script)) := rpcs (fst (run true t0 h)).
+Definition C02_ex_c0 := mk_config 10 1000 6.
+Definition C02_ex_blocks0 : list (N * list N) := [(1006,[]);(1005,[]);(1004,[]);(1003,[]);(1002,[]);(1001,[])].
+Definition C02_ex_dummy := mk_tower C02_ex_c0 [] 0 [] [] [] 0 (mk_txindex [] [] [] 0 0) (mk_txindex [] [] [] 0 0) 0 [] [] [].
+Definition C02_ex_t0 := match init C02_ex_c0 200 C02_ex_blocks0 with Some t => t | None => C02_ex_dummy end.
+Definition C02_ex_good := mk_blob 500 (Some 900) 100.
+Definition C02_ex_rpcs (t : tower) := map (fun e => (r_kind e, r_tx e)) (rpc_log t).
+Definition C02_ex_log_after (h : list (op * script)) := C02_ex_rpcs (fst (run true C02_ex_t0 h)).
 
-  (* (1) a breach: the penalty is submitted *)
-  Example send_for_breach :
-    log_after [(ORegister 1, []); (OAdd (Some 1) 500 good 20 77, []); (OConnect 2001 [500], [])]
-    = [(K_send, 900); (K_getraw, 900)].
-  Proof. vm_compute. reflexivity. Qed.
+(* (1) a breach: the penalty is submitted *)
+Example C02_ex_send_for_breach :
+  C02_ex_log_after [(ORegister 1, []); (OAdd (Some 1) 500 C02_ex_good 20 77, []); (OConnect 2001 [500], [])]
+  = [(K_send, 900); (K_getraw, 900)].
+Proof. vm_compute. reflexivity. Qed.
 
-  (* nothing is submitted for an appointment that is not triggered *)
-  Example no_send_untriggered :
-    log_after [(ORegister 1, []); (OAdd (Some 1) 500 good 20 77, []); (OConnect 2001 [501], [])] = [].
-  Proof. vm_compute. reflexivity. Qed.
+(* nothing is submitted for an appointment that is not triggered *)
+Example C02_ex_no_send_untriggered :
+  C02_ex_log_after [(ORegister 1, []); (OAdd (Some 1) 500 C02_ex_good 20 77, []); (OConnect 2001 [501], [])] = [].
+Proof. vm_compute. reflexivity. Qed.
 
-  (* (3) after a reorg of the block that confirmed the penalty, dispute and penalty are re-announced *)
-  Example reorg_reannounce :
-    log_after [(ORegister 1, []); (OAdd (Some 1) 500 good 20 77, []); (OConnect 2001 [500], []);
-               (OConnect 2002 [900], []); (ODisconnect, []); (OConnect 2003 [], [])]
-    = [(K_send, 900); (K_send, 500)].
-  Proof. vm_compute. reflexivity. Qed.
+(* (3) after a reorg of the block that confirmed the penalty, dispute and penalty are re-announced *)
+Example C02_ex_reorg_reannounce :
+  C02_ex_log_after [(ORegister 1, []); (OAdd (Some 1) 500 C02_ex_good 20 77, []); (OConnect 2001 [500], []);
+             (OConnect 2002 [900], []); (ODisconnect, []); (OConnect 2003 [], [])]
+  = [(K_send, 900); (K_send, 500)].
+Proof. vm_compute. reflexivity. Qed.
 
-  (* (2) a tracker whose penalty stays unconfirmed is re-broadcast after CONFIRMATIONS_BEFORE_RETRY blocks *)
-  Example stale_rebroadcast :
-    log_after [(ORegister 1, []); (OAdd (Some 1) 500 good 20 77, []); (OConnect 2001 [500], []);
-               (OConnect 2002 [], []); (OConnect 2003 [], []); (OConnect 2004 [], []); (OConnect 2005 [], []);
-               (OConnect 2006 [], [])]
-    = [(K_send, 900)].
-  Proof. vm_compute. reflexivity. Qed.
+(* (2) a tracker whose penalty stays unconfirmed is re-broadcast after CONFIRMATIONS_BEFORE_RETRY blocks *)
+Example C02_ex_stale_rebroadcast :
+  C02_ex_log_after [(ORegister 1, []); (OAdd (Some 1) 500 C02_ex_good 20 77, []); (OConnect 2001 [500], []);
+             (OConnect 2002 [], []); (OConnect 2003 [], []); (OConnect 2004 [], []); (OConnect 2005 [], []);
+             (OConnect 2006 [], [])]
+  = [(K_send, 900)].
+Proof. vm_compute. reflexivity. Qed.
 
-  (* no_send_for_purged: the owner's subscription (duration 2, grace 0) is over at the block that
-     carries the dispute; the gatekeeper purges first, nothing is submitted *)
-  Definition c1 := mk_config 10 2 0.
-  Definition t1 := match init c1 200 blocks0 with Some t => t | None => dummy end.
-  Example purged_no_send :
-    (let t := fst (run true t1 [(ORegister 1, []); (OAdd (Some 1) 500 good 20 77, []); (OConnect 2001 [], []);
-                                (OConnect 2002 [500], [])]) in (db_users t, db_apps t, rpcs t))
-    = ([], [], []).
-  Proof. vm_compute. reflexivity. Qed.
-End Examples.
+(* no_send_for_purged: the owner's subscription (duration 2, grace 0) is over at the block that
+   carries the dispute; the gatekeeper purges first, nothing is submitted *)
+Definition C02_ex_c1 := mk_config 10 2 0.
+Definition C02_ex_t1 := match init C02_ex_c1 200 C02_ex_blocks0 with Some t => t | None => C02_ex_dummy end.
+Example C02_ex_purged_no_send :
+  (let t := fst (run true C02_ex_t1 [(ORegister 1, []); (OAdd (Some 1) 500 C02_ex_good 20 77, []); (OConnect 2001 [], []);
+                              (OConnect 2002 [500], [])]) in (db_users t, db_apps t, C02_ex_rpcs t))
+  = ([], [], []).
+Proof. vm_compute. reflexivity. Qed.
